@@ -583,6 +583,24 @@ func main() {
 		addStmt("Interpreter.Exec.gojaNew", fmt.Sprintf("calls=%d local=%v stored=%d", newCalls, newVar != "", stored))
 		after := stmtsAfter(fd, "RunProgram(", 2)
 		addStmt("Interpreter.Exec.afterRun", strings.Join(after, " ;; "))
+		// every return that follows the start of the run and carries an error: what execution
+		// does it hand back?  (a non-nil execution would carry the emission buffer)
+		var runPos token.Pos
+		ast.Inspect(fd.Body, func(n ast.Node) bool {
+			if c, ok := n.(*ast.CallExpr); ok && runPos == 0 && strings.Contains(text(c.Fun), "RunProgram") {
+				runPos = c.Pos()
+			}
+			return true
+		})
+		ast.Inspect(fd.Body, func(n ast.Node) bool {
+			if _, isLit := n.(*ast.FuncLit); isLit {
+				return false
+			}
+			if r, ok := n.(*ast.ReturnStmt); ok && runPos != 0 && r.Pos() > runPos && len(r.Results) == 2 && text(r.Results[1]) != "nil" {
+				addStmt("Interpreter.Exec.errorReturnsAfterRun", text(r.Results[0]))
+			}
+			return true
+		})
 		// the watcher goroutine
 		ast.Inspect(fd.Body, func(n ast.Node) bool {
 			if g, ok := n.(*ast.GoStmt); ok {
